@@ -5,7 +5,7 @@ import "strings"
 // SigmaR: one representative per lexical class the parser branches on (DESIGN §2.1 level 1).
 var SigmaR = []string{
 	"a", "n", "1", "_", " ", "\t", "\n", ";", "#", "{", "}", "[", "]", ":", ".", "-", ">", "<", "*", "&", "!",
-	"(", ")", "\"", "'", "|", "\\", "$", "@", "`", "é", "世", "😀",
+	"(", ")", "\"", "'", "|", "\\", "$", "@", "`", "é", "世", "😀", "Ａ", // U+FF21: high BMP (above the surrogate range), 3 UTF-8 bytes, 1 UTF-16 unit
 }
 
 // raw bytes for invalid-UTF-8 / BOM runs
